@@ -87,7 +87,98 @@ class Sym:
         self._stable[l] = ok
         return ok
 
+    # ---- reaching definitions for re-assigned (but never mutably borrowed) locals
+    def _rd_eligible(self, l):
+        if self._mutborrowed is None:
+            self._scan_mut_borrows()
+        ds = self.defs.get(l, [])
+        is_param = 1 <= l <= self.fn.arg_count
+        if l in self._mutborrowed:
+            return False
+        return len(ds) + (1 if is_param else 0) >= 2
+
+    def _block_transfer(self, b, l, inset):
+        """apply the definitions of l in block b (in order) to a reaching set"""
+        cur = set(inset)
+        ds = sorted((self._pos(j), k) for k, (bb, j, rv, w) in enumerate(self.defs[l]) if bb == b)
+        for _, k in ds:
+            if self.defs[l][k][3]:
+                cur = {k}
+            else:
+                cur = cur | {k}
+        return cur
+
+    def _rd(self):
+        """IN sets: block -> {local: set(def index)}; -1 is the parameter's entry value"""
+        if hasattr(self, "_rd_in"):
+            return self._rd_in
+        fn = self.fn
+        elig = [l for l in list(self.defs) + list(range(1, fn.arg_count + 1))
+                if self._rd_eligible(l)]
+        elig = sorted(set(elig))
+        IN = {b: {} for b in range(len(fn.blocks))}
+        OUT = {b: {} for b in range(len(fn.blocks))}
+        changed = True
+        while changed:
+            changed = False
+            for b in range(len(fn.blocks)):
+                if fn.blocks[b]["c"]:
+                    continue
+                new_in = {}
+                if b == 0:
+                    for l in elig:
+                        if 1 <= l <= fn.arg_count:
+                            new_in[l] = {-1}
+                for p in fn.pred[b]:
+                    for l, s in OUT[p].items():
+                        new_in.setdefault(l, set()).update(s)
+                new_out = {}
+                for l in elig:
+                    new_out[l] = self._block_transfer(b, l, new_in.get(l, set()))
+                if new_in != IN[b] or new_out != OUT[b]:
+                    IN[b], OUT[b] = new_in, new_out
+                    changed = True
+        self._rd_in = IN
+        return IN
+
+    @staticmethod
+    def _pos(j):
+        return 10**9 if j == "term" else j
+
+    def reaching(self, l, at):
+        """indices into defs[l] (or -1 = entry value) of the definitions reaching at=(bb, j)"""
+        bb, j = at
+        cur = set(self._rd()[bb].get(l, set()))
+        ds = sorted((self._pos(dj), k) for k, (dbb, dj, rv, w) in enumerate(self.defs.get(l, []))
+                    if dbb == bb and self._pos(dj) < self._pos(j))
+        for _, k in ds:
+            if self.defs[l][k][3]:
+                cur = {k}
+            else:
+                cur = cur | {k}
+        return cur
+
     # ---- expressions
+    def local_at(self, l, at):
+        if at is None or not self._rd_eligible(l):
+            return self.local(l)
+        r = self.reaching(l, at)
+        if len(r) != 1:
+            return ("local", l, self.fn.local_name(l))
+        k = next(iter(r))
+        if k == -1:
+            return ("param", l, self.fn.local_name(l))
+        if not self.defs[l][k][3]:
+            return ("local", l, self.fn.local_name(l))
+        key = ("rd", l, k)
+        if key in self._memo:
+            return self._memo[key]
+        self._memo[key] = ("local", l, self.fn.local_name(l))
+        (bb, j, rv, _) = self.defs[l][k]
+        e = self.rvalue(rv, bb, (bb, j))
+        self._memo[key] = e
+        return e
+
     def local(self, l):
         if l in self._memo:
             return self._memo[l]
@@ -97,7 +188,7 @@ class Sym:
             e = ("param", l, fn.local_name(l))
         elif self.stable(l):
             (bb, j, rv, _) = self.defs[l][0]
-            e = self.rvalue(rv, bb)
+            e = self.rvalue(rv, bb, (bb, j))
         else:
             e = ("local", l, fn.local_name(l))
         self._memo[l] = e
@@ -105,8 +196,8 @@ class Sym:
             self.types.setdefault(e, fn.local_ty(l))
         return e
 
-    def place(self, pl):
-        e = self.local(pl[0])
+    def place(self, pl, at=None):
+        e = self.local_at(pl[0], at)
         for p in pl[1:]:
             if p == "*":
                 continue
@@ -116,7 +207,7 @@ class Sym:
                 elif p[0] == "dc":
                     e = ("variant", e, p[2] if p[2] is not None else p[1])
                 elif p[0] == "i":
-                    e = ("index", e, self.local(p[1]))
+                    e = ("index", e, self.local_at(p[1], at))
                 elif p[0] == "ci":
                     e = ("index", e, ("const", -p[1] if p[3] else p[1], "usize"))
                 else:
@@ -136,10 +227,10 @@ class Sym:
             return e[4][idx]
         return ("field", e, name if name is not None else idx)
 
-    def operand(self, op):
+    def operand(self, op, at=None):
         k = op[0]
         if k in ("c", "m"):
-            return self.place(op[1])
+            return self.place(op[1], at)
         if k == "k":
             f = op_fn(op)
             if f is not None:
@@ -154,50 +245,51 @@ class Sym:
             return ("constx", str(op[2]), op[1])
         return ("unknown",)
 
-    def rvalue(self, rv, bb=None):
+    def rvalue(self, rv, bb=None, at=None):
         k = rv[0]
         if k == "use":
-            return self.operand(rv[1])
+            return self.operand(rv[1], at)
         if k == "bin":
             op = rv[1]
-            a, b = self.operand(rv[2]), self.operand(rv[3])
+            a, b = self.operand(rv[2], at), self.operand(rv[3], at)
             if op.endswith("WithOverflow"):
                 return ("ovf", ("bin", ARITH[op], a, b))
             return ("bin", ARITH.get(op, op), a, b)
         if k == "un":
-            return ("un", rv[1], self.operand(rv[2]))
+            return ("un", rv[1], self.operand(rv[2], at))
         if k == "cast":
-            return ("cast", rv[1], self.operand(rv[2]), rv[3])
+            return ("cast", rv[1], self.operand(rv[2], at), rv[3])
         if k in ("ref", "raw"):
-            return self.place(rv[2])
+            return self.place(rv[2], at)
         if k == "discr":
-            return ("discr", self.place(rv[1]))
+            return ("discr", self.place(rv[1], at))
         if k == "agg":
-            ops = tuple(self.operand(o) for o in rv[4])
+            ops = tuple(self.operand(o, at) for o in rv[4])
             var = None
             if rv[1] == "adt":
                 var = rv[3][1]
             return ("agg", rv[1], rv[2], var, ops)
         if k == "rep":
-            return ("rep", self.operand(rv[1]), rv[2])
+            return ("rep", self.operand(rv[1], at), rv[2])
         if k == "callret":
             call = rv[1]
-            return self.call_expr(call)
+            return self.call_expr(call, (call.bb, "term"))
         if k == "setdiscr":
             return ("unknown",)
         return ("unknown",)
 
-    def call_expr(self, call):
-        args = tuple(self.operand(a) for a in call.args)
+    def call_expr(self, call, at=None):
+        args = tuple(self.operand(a, at) for a in call.args)
         name = call.name
         if call.callee.get("id") is None:
             return ("callat", call.bb, "<indirect>", args)
         sh = call.method or short(name)
         if sh in CMP_METHODS and len(args) == 2:
             return ("bin", CMP_METHODS[sh], args[0], args[1])
+        cg = tuple(x for x in call.cargs() if isinstance(x, int))
         if sh in PURE_METHODS:
-            return ("call", sh, args, call.res, name)
-        return ("callat", call.bb, sh, args, call.res, name)
+            return ("call", sh, args, call.res, name) + ((cg,) if cg else ())
+        return ("callat", call.bb, sh, args, call.res, name) + ((cg,) if cg else ())
 
     # ---- facts
     def edge_facts(self):
